@@ -88,7 +88,9 @@ type c17obs struct {
 	ping  bool
 }
 
-func (o c17obs) String() string { return fmt.Sprintf("alive=%v ping=%v inbox=%v", o.alive, o.ping, o.inbox) }
+func (o c17obs) String() string {
+	return fmt.Sprintf("alive=%v ping=%v inbox=%v", o.alive, o.ping, o.inbox)
+}
 
 // runC17 executes events (already filtered) and returns tenant A's observation plus direct-oracle violations.
 func runC17(t *testing.T, p c17path, events []string, direct func(sig, msg string)) (obs c17obs, ok bool) {
